@@ -63,6 +63,8 @@ let () = register "packed_elem" (fun a ->
     pk_check_touched first last t;
     let (r, t) = packed_get c arr' ni in
     pk_check_touched first last t;
+    (* a shift by the width of its type would be undefined in C: never predicted *)
+    if packed_shift_ub c ni then out_str "ub" "shift";
     out_n "ret" r;
     out_str "arr" (pk_hex_of_slots sb arr');
     out_str "vbits" a.(3);
